@@ -27,7 +27,12 @@ rounding mode gives infinity; an exactly cancelled sum under toNegative gives
 evaluator of the printed FPCore text written from the FPCore standard (annotation
 `(! props e)` applies to `e` only, inherits the other properties): FPy agreeing
 with the standard where titanfp does not is counted `titanfp_quirk`, not a
-violation; FPy disagreeing with both is a violation.  Zeros compare equal
+violation; FPy disagreeing with both is a violation.  The one verdict taken
+without titanfp's value: titanfp raises *and* the standard evaluator finds the
+core ill-formed (ref of a scalar, index out of range, unbound variable) or
+non-terminating within its step budget, although the FPy program returned --
+that is the core being wrong, not titanfp declining a construct (an empty
+tensor, which titanfp cannot build, stays inconclusive).  Zeros compare equal
 regardless of sign (titanfp does not implement the IEEE rule; the statement is
 about precision and rounding mode).
 
@@ -63,6 +68,7 @@ evaluator, executed lines of the re-read function).
 from __future__ import annotations
 
 import itertools
+import linecache
 import math
 import signal
 import sys
@@ -544,11 +550,11 @@ class Check(BaseCheck):
             plan = dict(
                 full=dict(sizes=(1, 2, 3, 4), depth=3, kinds=allk, outer=outer, inner=inner,
                           returns=('pair',), rots=(0,), max_withs=2),
-                sw=dict(sizes=(2, 3, 4, 5, 6), depth=4, kinds=('S', 'W'), outer=['H_RNE', 'S_RTN', 'D_RTZ'],
+                sw=dict(sizes=(2, 3, 4, 5, 6), depth=4, kinds=('S', 'W'), outer=['H_RNE', 'D_RTZ'],
                         inner=['D_RNE', 'H_RTP', 'INT'], returns=('op',), rots=(1,)),
                 small=dict(sizes=(1, 2), depth=3, kinds=allk, outer=names, inner=names, returns=('op', 'var'),
                            rots=(2,), max_withs=1),
-                pairs=[(o, i) for o in names for i in ('D_RNE', 'H_RTN', 'INT') if o != i],
+                pairs=[(o, i) for o in names for i in ('D_RNE', 'H_RTN') if o != i] + [('H_RTZ', 'INT'), ('D_RNE', 'I_RNE')],
                 xpairs=[(o, i) for o in names for i in names],
                 scalars=SCALARS_QUICK + SCALARS_MORE,
                 lists={k: LISTS[k] + LISTS_MORE.get(k, []) for k in LISTS},
@@ -1063,6 +1069,7 @@ class Check(BaseCheck):
             for nlist, argss in self.inputs(prog.sig):
                 self.examine(r, src, sunk, flat, prog.sig, nlist, argss, tags)
             _reset_caches()
+            linecache.clearcache()
             if i % 997 == 5:
                 r.sample({'program': prog.key, 'src': src})
         m = MAX_LINES_SEEN[0]
